@@ -2,11 +2,11 @@ package main
 
 import (
 	"fmt"
-	"sync"
 	"go/ast"
 	"go/parser"
 	"go/token"
 	"go/types"
+	"sync"
 
 	"golang.org/x/tools/go/ssa"
 )
